@@ -2,7 +2,7 @@
 # continuous-query service.  Semantic properties X01..X04 are written down in specs/lease/Lease.tla and CQSched.tla.
 # spec: specs/lease (Lease, LeaseGen, CQSched, CQSchedGen); harness: harness/meta/zz_verif_lease_test.go,
 # harness/continuous_querier/zz_verif_cq_test.go
-import json, threading
+import json, re, threading
 from vcheck import Infra, log
 
 M_PKG = "services/meta"
@@ -81,7 +81,8 @@ def model_checking(ctx, sd, res):
         ctx.tlc_check(sd, "CQSched", "Q1.cfg", workers=8, timeout=1800, coverage=not q)
         # leads: what the hand-over of the lease (no fault at all) does to the cluster-wide view
         leads = {}
-        for inv, faults in (("Lead_ClusterAtMostOnce", 0), ("Lead_ClusterNoGap", 0), ("Lead_FailedQueryNoGap", 1)):
+        all_leads = [("Lead_ClusterAtMostOnce", 0), ("Lead_ClusterNoGap", 0), ("Lead_FailedQueryNoGap", 1)]
+        for inv, faults in ([all_leads[ctx.seed % 3]] if q else all_leads):   # quick: one of them, chosen by the seed
             ctx.write_cfg(sd, "QL.cfg", "Spec", cq_consts(Nodes={1, 2}, Is={4}, Es={0}, Fs={0}, Os={0}, MaxNow=56, MaxFaults=faults), [inv])
             r = ctx.tlc_check(sd, "CQSched", "QL.cfg", workers=2, timeout=600, expect_ok=False)
             leads[inv] = bool(r["violated"])
@@ -110,88 +111,139 @@ def x02_score(beh):
     return n
 
 
+def split_records(recs, rc, test):
+    """Several drivers ran in one `go test`: the records of one of them and its own exit status."""
+    mine = [r for r in recs if (r.get("k") in ("done",) and r.get("test") == test)
+            or (r.get("k") == "mismatch" and (r.get("replay") or {}).get("test") == test)]
+    failed = any(r.get("k") == "mismatch" and not r["sig"].startswith("note:") for r in mine) or not any(r.get("k") == "done" for r in mine)
+    return mine, (rc if failed else 0)
+
+
 def run(ctx):
+    import copy, tempfile
     sd = ctx.spec_dir("lease")
     rp = json.load(open(ctx.replay))["replay"] if ctx.replay else None
-    res = {}
-    th = None
-    if not rp:
-        th = threading.Thread(target=model_checking, args=(ctx, ctx.spec_dir("lease"), res))
-        th.start()
 
-    def meta_test(test, inp, label, timeout=1500):
-        p = ctx.write_json("in-%s.json" % label, inp)
-        return ctx.go_test(M_PKG, M_FILES, "^%s$" % test, env={"VERIF_IN": p}, timeout=timeout, label=label)
+    def meta_run(tests, inputs, label, timeout=2400, c=ctx):
+        env = {}
+        for kind, inp in inputs.items():
+            env["VERIF_IN_" + kind] = c.write_json("in-%s-%s.json" % (label, kind), inp)
+        return c.go_test(M_PKG, M_FILES, "^(%s)$" % "|".join(tests), env=env, timeout=timeout, label=label)
+
+    KIND = {"TestVerifLeaseTable": "TABLE", "TestVerifLeaseHTTP": "HTTP", "TestVerifLeaseCluster": "CLUSTER"}
+
+    def one_meta(r, label):
+        if r["test"] == "TestVerifLeaseClosing":
+            return meta_run([r["test"]], {}, label, 600)
+        inp = {"behaviours": [r["behaviour"]], "tick_ms": max(r.get("tick_ms", 0), 600), "parallel": 1}
+        return meta_run([r["test"]], {KIND[r["test"]]: inp}, label)
+
+    def stress(label):
+        """thorough tier: concurrent requests for one lease, built with the race detector.  Semantic part: every answer is
+        well formed.  A detector report that involves the lease table is reported as what it is (a verdict of the
+        detector, as for C19's race clause), any other report is only noted."""
+        recs, out, rc = ctx.go_test(M_PKG, M_FILES, "^TestVerifLeaseAnswerStress$", env={"VERIF_ROUNDS": 400}, timeout=900,
+                                    label=label, race=True)
+        races = re.findall(r"WARNING: DATA RACE.*?==================", out, re.S)
+        mine = [x for x in races if "Leases).Acquire" in x or "serveLease" in x]
+        done = [r for r in recs if r.get("k") == "done"]
+        if mine:
+            ctx.report_mismatch("race:lease-answer", "race detector: " + re.sub(r"\s+", " ", mine[0])[:1400], {"test": "TestVerifLeaseAnswerStress"})
+        elif races and done and not any(r.get("k") == "mismatch" for r in recs):
+            ctx.cov.setdefault("conformance_notes", []).append("race detector report outside the lease code during the stress: " + re.sub(r"\s+", " ", races[0])[:300])
+            rc = 0
+        if not mine:
+            ctx.process(recs, out, rc, "TestVerifLeaseAnswerStress", None)
+        return done[0] if done else {}
 
     def confirm_meta(r):
-        if r["test"] == "TestVerifLeaseClosing":
-            recs, out, rc = ctx.go_test(M_PKG, M_FILES, "^TestVerifLeaseClosing$", timeout=600, label="confirm-closing")
-        else:
-            inp = {"behaviours": [r["behaviour"]], "tick_ms": max(r.get("tick_ms", 0), 400), "parallel": 1}
-            recs, out, rc = meta_test(r["test"], inp, "confirm")
+        recs, out, rc = one_meta(r, "confirm")
         return any(x.get("k") == "mismatch" and not x["sig"].startswith("note:") for x in recs)
 
-    def cq_test(inp, label):
-        p = ctx.write_json("in-%s.json" % label, inp)
-        return ctx.go_test(CQ_PKG, CQ_FILES, "^TestVerifCQReplay$", env={"VERIF_IN": p}, timeout=1500, label=label)
+    def cq_run(tests, inp, label, c=ctx):
+        env = {"VERIF_IN": c.write_json("in-%s.json" % label, inp)} if inp else {}
+        return c.go_test(CQ_PKG, CQ_FILES, "^(%s)$" % "|".join(tests), env=env, timeout=1500, label=label)
 
-    def confirm_cq(r):
-        if r["test"] == "CQTIMER":
-            recs, out, rc = ctx.go_test(CQ_PKG, CQ_FILES, "^TestVerifCQTimer$", timeout=600, label="confirm-timer")
-        else:
-            recs, out, rc = cq_test({"behaviours": [r["behaviour"]], "indices": [r["index"]], "seed": r["seed"]}, "confirm-cq")
-        return any(x.get("k") == "mismatch" for x in recs)
+    def one_cq(r, label, c=ctx):
+        if r["test"] == "TestVerifCQTimer":
+            return cq_run(["TestVerifCQTimer"], None, label, c)
+        return cq_run(["TestVerifCQReplay"], {"behaviours": [r["behaviour"]], "indices": [r["index"]], "seed": r["seed"]}, label, c)
 
-    extra = {}
     if rp:
-        if rp["test"] in ("CQ", "CQTIMER"):
-            if rp["test"] == "CQ":
-                recs, out, rc = cq_test({"behaviours": [rp["behaviour"]], "indices": [rp["index"]], "seed": rp["seed"]}, "replay")
-                ctx.process(recs, out, rc, "TestVerifCQReplay", None)
-            else:
-                recs, out, rc = ctx.go_test(CQ_PKG, CQ_FILES, "^TestVerifCQTimer$", timeout=600, label="replay")
-                ctx.process(recs, out, rc, "TestVerifCQTimer", None)
-        elif rp["test"] == "TestVerifLeaseClosing":
-            recs, out, rc = ctx.go_test(M_PKG, M_FILES, "^TestVerifLeaseClosing$", timeout=600, label="replay")
-            ctx.process(recs, out, rc, rp["test"], None)
+        if rp["test"] == "TestVerifLeaseAnswerStress":
+            stress("replay")
+            return ctx.finish("model_checking", {"replay": rp["test"]})
+        if rp["test"] in ("TestVerifCQReplay", "TestVerifCQTimer"):
+            recs, out, rc = one_cq(rp, "replay")
         else:
-            recs, out, rc = meta_test(rp["test"], {"behaviours": [rp["behaviour"]], "tick_ms": max(rp.get("tick_ms", 0), 400), "parallel": 1}, "replay")
-            ctx.process(recs, out, rc, rp["test"], None)
+            recs, out, rc = one_meta(rp, "replay")
+        ctx.process(recs, out, rc, rp["test"], None)
         return ctx.finish("model_checking", {"replay": rp["test"]})
 
-    # ---- 1. lease table in real time: Leases.Acquire directly, then through serveLease + Client.AcquireLease
+    res, extra, errors = {}, {}, []
+
+    def guarded(fn):
+        def w():
+            try:
+                fn()
+            except BaseException as e:
+                errors.append(e)
+        t = threading.Thread(target=w)
+        t.start()
+        return t
+
+    # ---- exhaustive TLC runs (own thread and spec directory)
+    sd_mc = ctx.spec_dir("lease")
+    t_mc = threading.Thread(target=model_checking, args=(ctx, sd_mc, res))
+    t_mc.start()
+
+    # ---- 4. the continuous-query service (own thread, own scratch directory, shared verdict lists):
+    #         schedules replayed on real Services; the timer path with the real clock
+    ctx2 = copy.copy(ctx)
+    ctx2.scratch = tempfile.mkdtemp(prefix="cq-", dir=ctx.scratch)
+
+    def cq_pipeline():
+        sdq = ctx2.spec_dir("lease")
+        glq = 30
+        gq = cq_consts(Nodes={1, 2}, MaxNow=400, MaxFaults=3, GenLen=glq, MaxJump=5)
+        ctx2.write_cfg(sdq, "GQ.cfg", "GSpec", gq, extra="INVARIANT Emit")
+        nq = ctx2.pick(150, 2000)
+        qb = ctx2.tlc_generate(sdq, "CQSchedGen", "GQ.cfg", num=nq, depth=glq + 1)[:nq]
+        recs, out, rc = cq_run(["TestVerifCQReplay", "TestVerifCQTimer"], {"behaviours": qb}, "cq", ctx2)
+        for r in recs:
+            if r.get("k") == "sample":
+                ctx2.add_sample(r.get("v"))
+        r4, rc4 = split_records(recs, rc, "TestVerifCQReplay")
+        d4 = ctx2.process(r4, out, rc4, "TestVerifCQReplay", lambda r: any(x.get("k") == "mismatch" for x in one_cq(r, "confirm-cq", ctx2)[0]))
+        ctx2.cov["traces_validated_against_impl"] += d4.get("behaviours", 0)
+        extra.update({"cq_" + k: v for k, v in d4.items() if k not in ("k", "test")})
+        if d4 and not ctx2.violations:
+            for k in ("passes_executed", "catch_up_passes", "refused", "restarts", "manual", "failed_queries"):
+                if not d4.get(k):
+                    raise Infra("replay vacuity: no %s in the replayed continuous-query behaviours" % k)
+        r5, rc5 = split_records(recs, rc, "TestVerifCQTimer")
+        d5 = ctx2.process(r5, out, rc5, "TestVerifCQTimer", lambda r: any(x.get("k") == "mismatch" for x in one_cq(r, "confirm-timer", ctx2)[0]))
+        extra.update({"timer_" + k: v for k, v in d5.items() if k not in ("k", "test")})
+    t_cq = guarded(cq_pipeline)
+
+    # ---- 1.-3. the lease: behaviours for the real-time replays and for the three-node cluster
     gl = 24
     gt = lease_consts(Meta=['"m1"'], Nodes={1, 2, 3}, Names=['"a"', '"b"'], MaxNow=99, GenLen=gl, GenMode='"table"', TickWeight=9)
     ctx.write_cfg(sd, "GT.cfg", "GSpec", gt, extra="INVARIANT Emit")
-    num = ctx.pick(120, 1200)
-    behs = ctx.tlc_generate(sd, "LeaseGen", "GT.cfg", num=num, depth=gl + 1)[:num]
-    recs, out, rc = meta_test("TestVerifLeaseTable", {"behaviours": behs, "tick_ms": 200, "parallel": 48}, "lease-table")
-    d1 = ctx.process(recs, out, rc, "TestVerifLeaseTable", confirm_meta)
-    nh = ctx.pick(64, 400)
-    recs, out, rc = meta_test("TestVerifLeaseHTTP", {"behaviours": behs[:nh], "tick_ms": 600, "parallel": 32}, "lease-http")
-    d2 = ctx.process(recs, out, rc, "TestVerifLeaseHTTP", confirm_meta)
-    ctx.cov["traces_validated_against_impl"] += d1.get("behaviours_on_schedule", 0) + d2.get("behaviours_on_schedule", 0)
-    extra.update({"table_behaviours": d1.get("behaviours", 0), "table_on_schedule": d1.get("behaviours_on_schedule", 0),
-                  "table_calls": d1.get("calls", 0),
-                  "table_kinds": {k[5:]: v for k, v in d1.items() if k.startswith("kind_")},
-                  "http_behaviours": d2.get("behaviours", 0), "http_on_schedule": d2.get("behaviours_on_schedule", 0),
-                  "http_calls": d2.get("calls", 0), "http_kinds": {k[5:]: v for k, v in d2.items() if k.startswith("kind_")}})
-    for k in ("new", "renew", "takeover", "refuse"):
-        if not extra["table_kinds"].get(k) or not extra["http_kinds"].get(k):
-            raise Infra("replay vacuity: no on-schedule '%s' answer was compared (table %s, http %s)" % (k, extra["table_kinds"], extra["http_kinds"]))
-
-    # ---- 2. a node that shuts down answers 503, not a crash
-    recs, out, rc = ctx.go_test(M_PKG, M_FILES, "^TestVerifLeaseClosing$", timeout=600, label="lease-closing")
-    d = ctx.process(recs, out, rc, "TestVerifLeaseClosing", confirm_meta)
-    extra["closing_answer"] = d.get("answer")
-
-    # ---- 3. three-node raft cluster: leadership transfer, stop/start, redirect, quorum loss (X01 per table, X02, X04)
     glc = 40
     gc = lease_consts(Meta=['"m1"', '"m2"', '"m3"'], Names=['"a"'], D=5, MaxNow=0, MaxEvents=7, AllowRestart=True, GenLen=glc,
                       GenMode='"cluster"', TickWeight=1)
-    ctx.write_cfg(sd, "GC.cfg", "GSpec", gc, extra="INVARIANT Emit")
+    sd_c = ctx.spec_dir("lease")
+    ctx.write_cfg(sd_c, "GC.cfg", "GSpec", gc, extra="INVARIANT Emit")
+    gen = {}
+    t_gc = guarded(lambda: gen.update(cand=ctx.tlc_generate(sd_c, "LeaseGen", "GC.cfg", num=ctx.pick(60, 300), depth=glc + 1)))
+    num = ctx.pick(120, 1200)
+    behs = ctx.tlc_generate(sd, "LeaseGen", "GT.cfg", num=num, depth=gl + 1)[:num]
+    t_gc.join()
+    if errors:
+        raise errors[0]
+    cand = gen["cand"]
     nc = ctx.pick(4, 24)
-    cand = ctx.tlc_generate(sd, "LeaseGen", "GC.cfg", num=ctx.pick(60, 300), depth=glc + 1)
     cand.sort(key=lambda b: -x02_score(b))            # stable: the double-holder scenarios first
     with_stop = [b for b in cand if any(s["a"] == "send" and s["skipped"] for s in b)]
     chosen = cand[:nc - nc // 2]
@@ -199,39 +251,52 @@ def run(ctx):
     chosen += [b for b in cand if b not in chosen][:nc - len(chosen)]
     if x02_score(chosen[0]) == 0:
         raise Infra("no generated cluster behaviour contains the two-holder scenario")
-    recs, out, rc = meta_test("TestVerifLeaseCluster", {"behaviours": chosen}, "lease-cluster", timeout=2400)
-    d3 = ctx.process(recs, out, rc, "TestVerifLeaseCluster", confirm_meta)
-    ctx.cov["traces_validated_against_impl"] += d3.get("behaviours", 0)
+    nh = ctx.pick(48, 400)
+    tests = ["TestVerifLeaseTable", "TestVerifLeaseHTTP", "TestVerifLeaseClosing", "TestVerifLeaseCluster"]
+    recs, out, rc = meta_run(tests, {"TABLE": {"behaviours": behs, "tick_ms": 200, "parallel": 48},
+                                     "HTTP": {"behaviours": behs[:nh], "tick_ms": 800, "parallel": 16, "min_on_schedule_pct": 25},
+                                     "CLUSTER": {"behaviours": chosen}}, "lease", timeout=3000)
+    d = {}
+    for r in recs:
+        if r.get("k") == "sample":
+            ctx.add_sample(r.get("v"))
+    for tname in tests:
+        r, rct = split_records(recs, rc, tname)
+        d[tname] = ctx.process(r, out, rct, tname, confirm_meta)
+    d1, d2, d3 = d["TestVerifLeaseTable"], d["TestVerifLeaseHTTP"], d["TestVerifLeaseCluster"]
+    ctx.cov["traces_validated_against_impl"] += d1.get("behaviours_on_schedule", 0) + d2.get("behaviours_on_schedule", 0) + d3.get("behaviours", 0)
+    extra.update({"table_behaviours": d1.get("behaviours", 0), "table_on_schedule": d1.get("behaviours_on_schedule", 0),
+                  "table_calls": d1.get("calls", 0),
+                  "table_kinds": {k[5:]: v for k, v in d1.items() if k.startswith("kind_")},
+                  "http_behaviours": d2.get("behaviours", 0), "http_on_schedule": d2.get("behaviours_on_schedule", 0),
+                  "http_calls": d2.get("calls", 0), "http_kinds": {k[5:]: v for k, v in d2.items() if k.startswith("kind_")},
+                  "closing_answer": d["TestVerifLeaseClosing"].get("answer")})
     extra.update({"cluster_" + k: v for k, v in d3.items() if k not in ("k", "test")})
-    if d3 and not ctx.violations and d3.get("x02_two_holders_observed", 0) == 0 and "note:x02-stricter" not in str(ctx.cov.get("conformance_notes")):
-        raise Infra("the two-holder scenario of the model was not observed on the real cluster although it was replayed")
+    if not ctx.violations:
+        for k in ("new", "renew", "takeover", "refuse"):
+            if not extra["table_kinds"].get(k) or not extra["http_kinds"].get(k):
+                raise Infra("replay vacuity: no on-schedule '%s' answer was compared (table %s, http %s)" % (k, extra["table_kinds"], extra["http_kinds"]))
+        if d3.get("x02_two_holders_observed", 0) == 0 and "note:x02-stricter" not in str(ctx.cov.get("conformance_notes")):
+            raise Infra("the two-holder scenario of the model was not observed on the real cluster although it was replayed")
+        for k in ("leadership_transfers", "stops", "served_after_redirect", "calls_first_server_down"):
+            if not d3.get(k):
+                raise Infra("replay vacuity: no %s in the cluster replay" % k)
     if d3.get("x02_two_holders_observed", 0):
         log("X02 (design limitation, documented in client.go: 'Leases are not ... fully consistent'): after a change of "
             "leadership the real cluster granted a lease while another node held an unexpired one, %d times in %d behaviours"
             % (d3["x02_two_holders_observed"], d3.get("behaviours_with_two_holders", 0)))
 
-    # ---- 4. the continuous-query service: schedules replayed on real Services; the timer path with the real clock
-    glq = 30
-    gq = cq_consts(Nodes={1, 2}, MaxNow=400, MaxFaults=3, GenLen=glq, MaxJump=5)
-    ctx.write_cfg(sd, "GQ.cfg", "GSpec", gq, extra="INVARIANT Emit")
-    nq = ctx.pick(150, 2000)
-    qb = ctx.tlc_generate(sd, "CQSchedGen", "GQ.cfg", num=nq, depth=glq + 1)[:nq]
-    recs, out, rc = cq_test({"behaviours": qb}, "cq-replay")
-    d4 = ctx.process(recs, out, rc, "TestVerifCQReplay", confirm_cq)
-    ctx.cov["traces_validated_against_impl"] += d4.get("behaviours", 0)
-    extra.update({"cq_" + k: v for k, v in d4.items() if k not in ("k", "test")})
-    if d4 and not ctx.violations:
-        for k in ("passes_executed", "catch_up_passes", "refused", "restarts", "manual", "failed_queries"):
-            if not d4.get(k):
-                raise Infra("replay vacuity: no %s in the replayed continuous-query behaviours" % k)
-    recs, out, rc = ctx.go_test(CQ_PKG, CQ_FILES, "^TestVerifCQTimer$", timeout=600, label="cq-timer")
-    d5 = ctx.process(recs, out, rc, "TestVerifCQTimer", confirm_cq)
-    extra.update({"timer_" + k: v for k, v in d5.items() if k not in ("k", "test")})
+    if not ctx.quick():
+        ds = stress("lease-stress-race")
+        extra.update({"stress_" + k: v for k, v in ds.items() if k not in ("k", "test")})
 
-    th.join()
+    t_cq.join()
+    t_mc.join()
     if "error" in res:
-        raise res["error"]
-    extra.update({k: v for k, v in res.items()})
+        raise res.pop("error")
+    if errors:
+        raise errors[0]
+    extra.update(res)
     return ctx.finish("model_checking", extra, assumptions=[
         "one global clock; every expiry is judged by the granting meta node, clock skew between meta nodes is not modelled",
         "hashicorp/raft is trusted (at most one leader per term); what is modelled is each meta node's own view of the leader",
